@@ -151,10 +151,10 @@ class Engine(BaseEngine):
 
     def judge(self, gcls, line, model_out, impl_outs):
         io = impl_outs["debug"]
-        m = re.match(r"crash child=(\S+) reopen=(\S+)(?: \| (.*))?$", io)
+        m = re.match(r"crash child=(\S+) file=(\S+) reopen=(\S+)(?: \| (.*))?$", io)
         if not m:
             return Verdict(oracle_ok=False, cls="crash-harness", detail="unexpected harness output %s" % io[:120], outcome="harness")
-        how, reopen, segs = m.group(1), m.group(2), m.group(3) or ""
+        how, fdig, reopen, segs = m.group(1), m.group(2), m.group(3), m.group(4) or ""
         if how not in ("killed", "completed"):
             return Verdict(oracle_ok=False, cls="child-failed", detail="child ended with %s" % how, outcome=how)
         if reopen != "ok":
@@ -171,6 +171,20 @@ class Engine(BaseEngine):
         if not model_out.startswith("crashmodel"):
             return Verdict(corr_ok=False, cls="runner-output", detail=model_out[:100], outcome="runner")
         cands = model_out.split(" ## ")[1:]
+        # byte level: the file the killed process left is one of the files LogBytes.crash_files lists for this call
+        # (theorem crash_files_recover is about exactly that list), and THE file of the hook point where one is known
+        mf = re.match(r"crashmodel cands=\d+ files=(\S+)", model_out)
+        files = mf.group(1).split(",") if mf else []
+        point = gcls.split(":", 2)[2] if gcls.count(":") >= 2 else ""
+        if fdig not in files:
+            return Verdict(corr_ok=False, cls="torn-file-not-modelled",
+                           detail="killed at %s: event.map is %s, the byte-level model allows %s" % (point, fdig[:60], [f[:40] for f in files]), outcome="file")
+        if gcls.startswith("kill:store:") and len(files) >= 5:
+            want = {"append:half-copied": files[-3], "append:returned": files[-1], "append:padded": files[1],
+                    "store:before-txn": files[0], "store:txn": files[0]}.get(point)
+            if want is not None and fdig != want:
+                return Verdict(corr_ok=False, cls="torn-file-at-point",
+                               detail="killed at %s: event.map is %s, the byte-level model has %s there" % (point, fdig[:60], want[:60]), outcome="file")
         if segs in cands:
             return Verdict(outcome="%s/cand%d-of-%d" % (how, cands.index(segs), len(cands)), nontrivial=True)
         return Verdict(oracle_ok=False, cls="recovered-state-not-atomic",
